@@ -166,6 +166,7 @@ class FormulaMaterializer(metaclass=FormulaMaterializerMeta):
 
         self.factor_cache: dict[str, EvaluatedFactor] = {}
         self.encoded_cache: dict[Union[str, tuple[str, bool]], Any] = {}
+        self.encoder_state_cache: dict[str, tuple[Factor.Kind, dict[str, Any]]] = {}
 
     def _init(self) -> None:
         pass  # pragma: no cover
@@ -190,6 +191,7 @@ class FormulaMaterializer(metaclass=FormulaMaterializerMeta):
         # one call only: they depend on its specs, options and dropped rows.
         self.factor_cache = {}
         self.encoded_cache = {}
+        self.encoder_state_cache = {}
 
         # Prepare ModelSpec(s)
         spec: Union[ModelSpec, ModelSpecs] = ModelSpec.from_spec(
@@ -705,8 +707,10 @@ class FormulaMaterializer(metaclass=FormulaMaterializerMeta):
         if not factor.metadata.encoded:
             if factor.expr in self.encoded_cache:
                 encoded = self.encoded_cache[factor.expr]
+                self._record_cached_encoder_state(factor, spec)
             elif (factor.expr, reduced_rank) in self.encoded_cache:
                 encoded = self.encoded_cache[(factor.expr, reduced_rank)]
+                self._record_cached_encoder_state(factor, spec)
             else:
 
                 def map_dict(f: Any) -> Any:
@@ -798,6 +802,7 @@ class FormulaMaterializer(metaclass=FormulaMaterializerMeta):
                             factor
                         )  # pragma: no cover; it is not currently possible to reach this sentinel
                 spec.encoder_state[factor.expr] = (factor.metadata.kind, encoder_state)
+                self.encoder_state_cache[factor.expr] = spec.encoder_state[factor.expr]
 
                 # Only encode once for encodings where we can just drop a field
                 # later on below.
@@ -832,6 +837,20 @@ class FormulaMaterializer(metaclass=FormulaMaterializerMeta):
             del encoded[encoded.__formulaic_metadata__.drop_field]
 
         return self._flatten_encoded_evaled_factor(factor.expr, encoded)
+
+    def _record_cached_encoder_state(
+        self, factor: EvaluatedFactor, spec: ModelSpec
+    ) -> None:
+        """
+        When a factor's encoding comes from the cache (it was encoded while
+        building another matrix in the same call), `spec` must still record the
+        encoder state that it was encoded with, or it cannot later be used on
+        its own.
+        """
+        if factor.expr not in spec.encoder_state:
+            state = self.encoder_state_cache.get(factor.expr)
+            if state is not None:
+                spec.encoder_state[factor.expr] = copy.deepcopy(state)
 
     def _extract_columns_for_encoding(
         self, factor: EvaluatedFactor
